@@ -124,3 +124,5 @@ Example C14_nonvacuous :
   show (PAnd (PNot (PNamed "p")) (PNamed "q")) =
     [TLParen; TLParen; TNot; TName "p"; TRParen; TAnd; TName "q"; TRParen].
 Proof. cbv zeta. repeat split; vm_compute; reflexivity. Qed.
+
+Print Assumptions C14_nonvacuous.
